@@ -809,8 +809,11 @@ Definition call_function (f : value) (args : list expr) (vararg go : bool) (s : 
     if isvm && negb vararg && negb fvar && Nat.eqb num_in num_exprs then
       eval_rvals args s [] (fun argv s1 => finish argv false s1)
     else if num_in <? 1 then
-      (* makeCallArgs: no parameters: arguments are neither counted nor evaluated *)
-      finish [] false s
+      (* makeCallArgs, a function without parameters: a plain call with arguments is rejected;
+         a spread call is accepted and its operands are neither counted nor evaluated
+         (known_findings.txt: spread-into-noparam-skips-operands, pinned by the suite) *)
+      if negb vararg && (0 <? num_exprs) then arity_error num_in num_exprs s
+      else finish [] false s
     else if (negb fvar && negb vararg && negb (Nat.eqb num_in num_exprs))
          || (fvar && vararg && ((num_in <? num_exprs) || (S num_exprs <? num_in)))
          || (fvar && negb vararg && (S num_exprs <? num_in))
@@ -1308,7 +1311,7 @@ Definition register_defer (f : value) (args : list expr) (vararg : bool) (s : rs
     let reg (argv : list rval) (callslice : bool) (s1 : rstate) : outcome :=
       Ok (set_rv (set_defers s1 (r_defers s1 ++ [mkD f argv callslice])) rv_nil) in
     if fvar || vararg then unsupported "variadic deferred call"
-    else if num_in <? 1 then reg [] false s
+    else if num_in <? 1 then (if 0 <? num_exprs then arity_error num_in num_exprs s else reg [] false s)
     else if negb (Nat.eqb num_in num_exprs) then arity_error num_in num_exprs s
     else eval_rvals args s [] (fun argv s1 => reg argv false s1)
   end.
